@@ -34,7 +34,7 @@ from core import Eval
 PROPERTY = "C06"
 DRIVER = "drv_c06"
 PROPS = ["PartituraModel.Props.C06", "PartituraModel.Props.C06Merge", "PartituraModel.Props.C06Tracks",
-         "PartituraModel.Props.C06Silence"]
+         "PartituraModel.Props.C06Silence", "PartituraModel.Props.C06Regen"]
 TRUSTED = [
     "mido: (de)serialisation of messages, delta times, merge_tracks (stable sort of absolute ticks), fix_end_of_track "
     "(modelled in absolute ticks as mergeAbs/fixEot and compared on every case)",
@@ -340,11 +340,62 @@ def gen_perf(rng, tier, ppq=None, mpq=None, kind=None):
                 timesigs.append([gen_time(rng, ppq, mpq, 0.0, span), rng.randint(1, 24), rng.choice([1, 2, 4, 8, 16, 32]), rng.choice(carrying)])
             for _ in range(rng.choice([0, 0, 1, 3])):
                 metas.append([gen_time(rng, ppq, mpq, 0.0, span * 1.5), rng.randint(0, len(META) - 1), rng.choice(carrying)])
+        if carrying and rng.random() < 0.08:
+            # round 3: an entry on a track number that no note, control or program of ITS part carries (a conductor
+            # track of the user's making, or the track of another part): `Performance(...)` leaves its number alone
+            # (fixes/C06-7 renumbers only what shares a track with the part's notes, controls or programs)
+            tr = rng.choice([0, max(carrying) + 1, max(carrying) + 3, rng.choice(all_tracks)])
+            which = rng.random()
+            if which < 0.4:
+                keysigs.append([gen_time(rng, ppq, mpq, 0.0, span), rng.randint(-7, 7), rng.randint(0, 1), tr])
+            elif which < 0.7:
+                timesigs.append([gen_time(rng, ppq, mpq, 0.0, span), rng.randint(1, 24), rng.choice([2, 4, 8]), tr])
+            else:
+                metas.append([gen_time(rng, ppq, mpq, 0.0, span), rng.randint(1, len(META) - 1), tr])
         p.update(notes=notes, controls=controls, programs=programs, keysigs=keysigs, timesigs=timesigs, metas=metas)
         del p["tracks"], p["slots"]
     pm = 0.6 if flavour == "cross" else 0.3
-    return {"k": "perf", "kind": kind, "ppq": ppq, "mpq": mpq, "msave": rng.random() < pm, "mload": rng.random() < pm,
-            "bpm": rng.choice([120, 120, 120, 60, 90, 100]), "parts": parts, "lp": rng.random() < 0.3}
+    d = {"k": "perf", "kind": kind, "ppq": ppq, "mpq": mpq, "msave": rng.random() < pm, "mload": rng.random() < pm,
+         "bpm": rng.choice([120, 120, 120, 60, 90, 100]), "parts": parts, "lp": rng.random() < 0.3}
+    if rng.random() < 0.35:
+        decorate_ticks(rng, d)
+    return d
+
+
+def decorate_ticks(rng, d):
+    """round 3: the dictionaries of a hand-made performance carry the tick fields an importer leaves behind
+    (`note_on_tick`, `note_off_tick`, `time_tick`) and the parts their own `ppq` / `mpq` attributes - mostly equal to
+    the ppq/mpq of the file to be written - while the ticks are those of ANOTHER tempo, another resolution, the
+    moment before an edit of the seconds, or arbitrary.  The property speaks about the times in seconds."""
+    ppq, mpq = d["ppq"], d["mpq"]
+    mode = rng.choice(["grid", "tempo", "tempo", "ppq", "shifted", "shifted", "random"])
+    m1 = rng.choice([m for m in (400000, 600000, 1000000, 250000, 500000) if m != mpq])
+    q1 = rng.choice([q for q in (96, 480, 960, 1, 24) if q != ppq])
+    off = rng.choice([1, 7, 480, rng.randint(1, 2000)])
+
+    def tick(t):
+        if mode == "grid":
+            return int(round(1e6 * ppq * t / mpq))  # in step with the seconds
+        if mode == "tempo":
+            return int(round(1e6 * ppq * t / m1))  # the ticks of a file in another tempo
+        if mode == "ppq":
+            return int(round(1e6 * q1 * t / mpq))
+        if mode == "shifted":
+            return int(round(1e6 * ppq * t / mpq)) + off  # the seconds were moved after loading
+        return rng.randint(0, 5000)
+
+    for p in d["parts"]:
+        if rng.random() < 0.15:
+            continue  # a part without tick fields next to parts with them
+        p["attr"] = [ppq, mpq] if rng.random() < 0.65 else [rng.choice([96, 480, 960]), rng.choice([500000, 857142, 400000])]
+        for n in p["notes"]:
+            a = tick(n[4])
+            b = tick(n[5])
+            n += [a, max(a, b)]
+        for key in ("controls", "programs", "keysigs", "timesigs", "metas"):
+            for c in p[key]:
+                if rng.random() < 0.9:
+                    c.append(tick(c[0]))
 
 
 def gen_raw(rng, tier):
@@ -356,6 +407,9 @@ def gen_raw(rng, tier):
     tempi = [500000, 250000, 1000000, 857142, 250001, 1, 16777215, 600000, 600000]
     pedal_ok = flavour != "overlap"
     cluster_tick = rng.choice([None, None, 0, rng.randint(0, horizon)])
+    # round 3: the usual layout of a type 1 file - a first track with the tempo map, signatures and texts only,
+    # the notes (and their own track names, signatures, ...) in the later tracks
+    conductor = ntr > 1 and rng.random() < 0.3
     for ti in range(ntr):
         ev = []  # (tick, seq, code)
         seq = 0
@@ -372,7 +426,7 @@ def gen_raw(rng, tier):
             for _ in range(rng.choice([1, 2, 3, 4])):
                 put(cluster_tick, (4, rng.choice(tempi), 0, 0))
         used = set()
-        for _ in range(rng.choice([0, 1, 2, 3, 5])):
+        for _ in range(0 if (conductor and ti == 0) else rng.choice([0, 1, 2, 3, 5])):
             # pitches of different tracks are disjoint and a pitch has one timeline (see gen_perf)
             pitch = rng.randint(0, (127 - ti) // ntr) * ntr + ti
             if pitch in used:
@@ -407,12 +461,12 @@ def gen_raw(rng, tier):
                 cur = off + rng.choice([0, 0, 1, rng.randint(0, horizon // 4 + 1)])
                 if off == on and cur == off and pedal_ok:
                     cur = off + 1  # see gen_perf
-        for _ in range(rng.choice([0, 0, 2, 5])):
+        for _ in range(0 if (conductor and ti == 0) else rng.choice([0, 0, 2, 5])):
             num = rng.choice([64, 67, 1, rng.randint(0, 127)])
             if not pedal_ok and num == 64:
                 num = 65
             put(rng.randint(0, horizon), (2, rng.randint(0, 15), num, rng.randint(0, 127)))
-        for _ in range(rng.choice([0, 0, 1, 2])):
+        for _ in range(0 if (conductor and ti == 0) else rng.choice([0, 0, 1, 2])):
             put(rng.choice([0, rng.randint(0, horizon)]), (3, rng.randint(0, 15), rng.randint(0, 127), 0))
         for _ in range(rng.choice([0, 0, 1, 2])):
             put(rng.randint(0, horizon), (5, rng.randint(1, 24), rng.choice([1, 2, 4, 8, 16]), 0))
@@ -447,6 +501,48 @@ def gen_adj(rng, tier):
             "ticks": [rng.choice([0, 1, 100, 5000, rng.randint(0, 6000), rng.randint(0, 10**6)]) for _ in range(4)] + [x[0] for x in tc]}
 
 
+def _raw_seconds_bound(src):
+    """an upper bound of the seconds of any event of a raw file under any default tempo the generator uses"""
+    ticks = max([sum(m[0] for m in tr) for tr in src["tracks"]] + [0])
+    mx = max([m[2] for tr in src["tracks"] for m in tr if m[1] == 4] + [1000000])
+    return ticks * mx / (1e6 * src["ppq"])
+
+
+def gen_regen(rng, tier):
+    """round 3: second (and third) generation round trips.  A performance that was LOADED from a MIDI file - a raw
+    file with any tempo map, or a file the exporter wrote with any ppq/mpq - is saved again (often with the ppq of its
+    source and the default tempo, i.e. the very values its parts carry as attributes) with or without an edit of the
+    seconds in between (first_note_at_zero, a shift, a change of tempo), and loaded.  Such a performance carries the
+    tick positions of the OLD file next to its seconds."""
+    if rng.random() < 0.55:
+        src = gen_raw(rng, tier)
+        for _ in range(30):
+            if _raw_seconds_bound(src) <= 8000:
+                break
+            src = gen_raw(rng, tier)
+        else:
+            src = gen_perf(rng, tier)
+    else:
+        src = gen_perf(rng, tier)
+    src["lp"] = False
+    prev_ppq = src["ppq"]
+    cycles = []
+    for _ in range(rng.choice([1, 1, 1, 2])):
+        bpm = rng.choice([120, 120, 120, 60, 90, 100])
+        c = {"bpm": bpm, "merge": rng.random() < 0.25,
+             "via": rng.choice(["midi", "midi", "midi", "lp", "fnz", "fnz"]),
+             "edit": rng.choice([["none"], ["none"], ["none"], ["shift", rng.choice([0.5, 1.0, 0.1234, 1.0 / 3])],
+                                 ["scale", rng.choice([0.5, 2.0, 1.1])]]),
+             "kind": rng.choice(["Performance", "Performance", "list", "PerformedPart"]),
+             "ppq": prev_ppq if rng.random() < 0.6 else rng.choice(PPQS),
+             "mpq": default_mpq_of(bpm) if rng.random() < 0.6 else rng.choice(MPQS),
+             "msave": rng.random() < 0.25}
+        prev_ppq = c["ppq"]
+        cycles.append(c)
+    return {"k": "regen", "src": src, "cycles": cycles,
+            "final": {"bpm": rng.choice([120, 120, 120, 60, 90, 100]), "merge": rng.random() < 0.25}}
+
+
 def cases(rng, tier):
     n = {"quick": 1200, "thorough": 15000, "search": 4000}.get(tier, 1200)
     # every configuration of the finite part of the quantifier on a few performances
@@ -466,6 +562,8 @@ def cases(rng, tier):
             yield gen_raw(rng, tier)
         else:
             yield gen_adj(rng, tier)
+        if i % 3 == 0:
+            yield gen_regen(rng, tier)
 
 
 # ------------------------------------------------------------------ reference arithmetic (oracle)
@@ -823,35 +921,47 @@ def check_load_performance(ev, data, perf, lreq, bpm, merge):
 
 
 def build_parts(d):
+    """the performed parts of a `perf` description.  Round 3: an item may carry stored tick fields after its base
+    fields (note: on_tick, off_tick; the others: time_tick) and a part its own `attr` = [ppq, mpq]; a tick field is
+    any non-negative number - nothing keeps it in step with the seconds, the exporter has to write the seconds"""
     from partitura.performance import PerformedPart
 
     pps = []
     for p in d["parts"]:
-        notes = [dict(id="g%d" % i, midi_pitch=n[0], velocity=n[1], channel=n[2], track=n[3], note_on=n[4], note_off=n[5])
-                 for i, n in enumerate(p["notes"])]
-        controls = [dict(time=c[0], number=c[1], value=c[2], channel=c[3], track=c[4]) for c in p["controls"]]
-        programs = [dict(time=c[0], program=c[1], channel=c[2], track=c[3]) for c in p["programs"]]
-        keysigs = [dict(time=c[0], fifths=c[1], mode="minor" if c[2] else "major", track=c[3]) for c in p["keysigs"]]
-        timesigs = [dict(time=c[0], beats=c[1], beat_type=c[2], track=c[3]) for c in p["timesigs"]]
+        notes = []
+        for i, n in enumerate(p["notes"]):
+            nd = dict(id="g%d" % i, midi_pitch=n[0], velocity=n[1], channel=n[2], track=n[3], note_on=n[4], note_off=n[5])
+            if len(n) > 6:
+                nd.update(note_on_tick=n[6], note_off_tick=n[7])
+            notes.append(nd)
+
+        def tk(dct, c, k):
+            if len(c) > k:
+                dct["time_tick"] = c[k]
+            return dct
+
+        controls = [tk(dict(time=c[0], number=c[1], value=c[2], channel=c[3], track=c[4]), c, 5) for c in p["controls"]]
+        programs = [tk(dict(time=c[0], program=c[1], channel=c[2], track=c[3]), c, 4) for c in p["programs"]]
+        keysigs = [tk(dict(time=c[0], fifths=c[1], mode="minor" if c[2] else "major", track=c[3]), c, 4) for c in p["keysigs"]]
+        timesigs = [tk(dict(time=c[0], beats=c[1], beat_type=c[2], track=c[3]), c, 4) for c in p["timesigs"]]
         metas = []
         for c in p["metas"]:
             ty, at = META[c[1]]
             md = dict(time=c[0], type=ty, track=c[2])
             md.update(at)
-            metas.append(md)
+            metas.append(tk(md, c, 3))
+        kw = {}
+        if p.get("attr"):
+            kw = dict(ppq=p["attr"][0], mpq=p["attr"][1])
         pps.append(PerformedPart(notes, controls=controls, programs=programs, key_signatures=keysigs,
-                                 time_signatures=timesigs, meta_other=metas))
+                                 time_signatures=timesigs, meta_other=metas, **kw))
     return pps
 
 
 def eval_perf(d):
-    import mido
     from partitura.performance import Performance
-    from partitura.io.exportmidi import save_performance_midi
-    from partitura.io.importmidi import load_performance_midi
 
     ev = Eval()
-    ppq, mpq = d["ppq"], d["mpq"]
     pps, e = call(build_parts, d)
     if e:
         ev.oracle.append("construct: PerformedPart(...) raised %r" % (e,))
@@ -871,12 +981,24 @@ def eval_perf(d):
         exp = [[ks.index((i, t)) for t in l] for i, l in enumerate(before)]
         if exp != after:
             ev.oracle.append("sanitize: tracks %r of the parts renumbered %r, order-preserving numbering is %r" % (before, after, exp))
+        # ... and the key/time signatures and other meta events (fixes/C06-7; model only - the property speaks about the
+        # performance that exists after construction, the oracle judges what save/load does to it)
+        before_m = [[c[3] for c in p["keysigs"]] + [c[3] for c in p["timesigs"]] + [c[2] for c in p["metas"]] for p in d["parts"]]
+        after_m = [[c["track"] for c in pp.key_signatures] + [c["track"] for c in pp.time_signatures] + [c["track"] for c in pp.meta_other] for pp in pps]
+        ev.requests.append("sanm " + W.lst(lambda pr: W.lst(W.i, pr[0]) + " " + W.lst(W.i, pr[1]), list(zip(before, before_m))))
+        ev.impl.append(W.f_list(lambda l: W.f_list(W.f_int, l), after_m))
     elif d["kind"] == "PerformedPart":
         arg = pps[0]
     else:
         arg = list(pps)
+    r = export_and_reload(ev, d, pps, arg)
+    if r is not None:
+        ev.key = "perf|" + r[1] if any(p["notes"] for p in r[2]) else None
+    return ev
 
-    # the performance as the exporter sees it
+
+def view_of(pps):
+    """the performance as the exporter sees it: the SECONDS (and payload) of every event - never a stored tick"""
     view = []
     for pp in pps:
         view.append({
@@ -887,6 +1009,50 @@ def eval_perf(d):
             "timesigs": [[c["time"], c["beats"], c["beat_type"], c["track"]] for c in pp.time_signatures],
             "metas": [[c["time"], meta_id(c["type"], c), c["track"]] for c in pp.meta_other],
         })
+    return view
+
+
+def near_boundary(view, ppq, mpq, eps=Fraction(1, 10**4)):
+    """is the tick image of any time of the view within eps of a half-tick boundary, or any time beyond 20000 s"""
+    for p in view:
+        ts = [t for n in p["notes"] for t in (n[4], n[5])]
+        for key in ("controls", "programs", "keysigs", "timesigs", "metas"):
+            ts += [c[0] for c in p[key]]
+        for t in ts:
+            x = exact_tick_image(t, ppq, mpq)
+            if abs((x - math.floor(x)) - Fraction(1, 2)) < eps or t > 20000:
+                return True
+    return False
+
+
+def stale_ticks(pps, ppq, mpq):
+    """number of stored tick fields that are NOT a nearest tick of their event's seconds in the file to be written,
+    counted over the parts whose own ppq/mpq attributes equal the file's (where they look most trustworthy)"""
+    n = 0
+    for pp in pps:
+        if getattr(pp, "ppq", None) != ppq or getattr(pp, "mpq", None) != mpq:
+            continue
+        for x in pp.notes:
+            for tk, tm in (("note_on_tick", "note_on"), ("note_off_tick", "note_off")):
+                if x.get(tk, None) is not None and x[tk] not in admissible(x[tm], ppq, mpq):
+                    n += 1
+        for l in (pp.controls, pp.programs, pp.key_signatures, pp.time_signatures, pp.meta_other):
+            for x in l:
+                if x.get("time_tick", None) is not None and x["time_tick"] not in admissible(x["time"], ppq, mpq):
+                    n += 1
+    return n
+
+
+def export_and_reload(ev, d, pps, arg):
+    """save `arg` (made of the performed parts `pps`) with d[ppq, mpq, msave], compare the written file with the model
+    and with the property (oracle_export), load it with d[bpm, mload] and compare / judge again (oracle_roundtrip).
+    Returns (bytes of the file, the `exp` request, view) or None when the export or the load raised."""
+    import mido
+    from partitura.io.exportmidi import save_performance_midi
+    from partitura.io.importmidi import load_performance_midi
+
+    ppq, mpq = d["ppq"], d["mpq"]
+    view = view_of(pps)
     times = set()
     for p in view:
         for n in p["notes"]:
@@ -897,6 +1063,9 @@ def eval_perf(d):
     for t in sorted(times):
         if is_boundary(exact_tick_image(t, ppq, mpq)):
             overrides.append((t, int(np.round(10**6 * ppq * t / mpq))))
+    st = stale_ticks(pps, ppq, mpq)
+    if st:
+        ev.info["stale_ticks_under_equal_ppq_mpq"] = ev.info.get("stale_ticks_under_equal_ppq_mpq", 0) + 1
 
     def part_req(p):
         mo = W.lst(lambda c: "%s %s %d" % (W.q(c[0]), "7 0 0 0" if c[1] == 0 else "8 %d 0 0" % c[1], c[2]), p["metas"])
@@ -915,7 +1084,7 @@ def eval_perf(d):
     if e:
         ev.impl.append("err:" + type(e).__name__)
         ev.oracle.append("export: save_performance_midi(%s, ppq=%d, mpq=%d, merge=%r) raised %r" % (d["kind"], ppq, mpq, d["msave"], e))
-        return ev
+        return None
     mf = mido.MidiFile(file=io.BytesIO(buf.getvalue()))
     tracks = file_tracks(mf)
     ev.impl.append(W.f_tuple(W.f_int(mf.type), W.f_list(fmt_track, tracks)))
@@ -929,19 +1098,18 @@ def eval_perf(d):
     if e:
         ev.impl.append("err:" + type(e).__name__)
         ev.oracle.append("load: load_performance_midi of the written file raised %r" % (e,))
-        return ev
+        return None
     ev.impl.append(loaded_int_text(perf))
     ev.requests.append("loadt " + lreq)
     ev.impl.append(("@approx", loaded_sec(perf), 1e-9))
     if mf.ticks_per_beat != ppq:
         ev.oracle.append("export: ticks_per_beat %r, asked for %r" % (mf.ticks_per_beat, ppq))
     check_loaded_against_file(ev, perf, tracks, mf.ticks_per_beat, dmpq, d["mload"], "load")
-    oracle_roundtrip(ev, d, view, perf)
+    oracle_roundtrip(ev, d, view, perf, from_loader=bool(d.get("from_loader")))
     if d.get("lp"):
         check_load_performance(ev, buf.getvalue(), perf, lreq, d["bpm"], d["mload"])
-    ev.key = "perf|" + req if any(p["notes"] for p in view) else None
-    ev.info.update({"boundary_times": len(overrides)})
-    return ev
+    ev.info["boundary_times"] = ev.info.get("boundary_times", 0) + len(overrides)
+    return buf.getvalue(), req, view
 
 
 def _event_rows(view, ppq, mpq):
@@ -1053,8 +1221,9 @@ def unmatched(exp, got, ok):
     return left, [j for j in range(len(got)) if mg[j] < 0]
 
 
-def oracle_roundtrip(ev, d, view, perf):
-    """loaded performance = original with times on the tick grid"""
+def oracle_roundtrip(ev, d, view, perf, from_loader=False):
+    """loaded performance = original with times on the tick grid.
+    `from_loader`: the performance that was saved is one `load_performance_midi` returned (second generation)"""
     ppq, mpq = d["ppq"], d["mpq"]
     sec = lambda k: Fraction(k * mpq, 10**6 * ppq)
     half = Fraction(mpq, 2 * 10**6 * ppq)
@@ -1065,6 +1234,17 @@ def oracle_roundtrip(ev, d, view, perf):
     # every written track must become a part for the numbering to be the rank (generator: meta only on carrying tracks)
     carrying = sorted(set(r[0] for r in rows if r[1] in ("on", "ctl", "prg")))
     if not merged and carrying != tnums:
+        if from_loader:
+            # every event of a part the loader returns was read from ONE file track, together with the notes,
+            # controls or programs that make it a part: it is no conductor track of the user's making, and the
+            # key/time signatures and other meta events of such a performance must come back like everything else
+            # (an end_of_track alone on such a track is no event of the performance: not judged)
+            lost = [(r[1], r[2], r[0]) for r in rows if r[0] not in carrying]
+            if lost:
+                ev.oracle.append("roundtrip second generation: the loaded performance has its notes, controls and programs on track(s) %r but "
+                                 "(kind, payload, track) %r of the same parts on other track numbers: written to tracks of their own they "
+                                 "are in no performed part after save and load" % (carrying, lost[:6]))
+        ev.info["roundtrip_unjudged_meta_only_track"] = ev.info.get("roundtrip_unjudged_meta_only_track", 0) + 1
         return
     if merged and not carrying:
         return
@@ -1174,6 +1354,115 @@ def eval_raw(d):
     return ev
 
 
+def apply_edit(perf, edit):
+    """an edit of the SECONDS of a loaded performance through its public interface (the tick fields stay)"""
+    if edit[0] == "none":
+        return
+    v = edit[1]
+    f = (lambda t: t + v) if edit[0] == "shift" else (lambda t: t * v)
+    growing = f(1.0) >= 1.0
+    for pp in perf.performedparts:
+        for n in pp.notes:
+            vals = {"note_on": f(n["note_on"]), "note_off": f(n["note_off"])}
+            # the setter validates note_off >= note_on against the value in place; sound_off (C14; stale in a loaded
+            # note whenever the file has a tempo change) is left alone
+            for key in (("note_off", "note_on") if growing else ("note_on", "note_off")):
+                n[key] = vals[key]
+        for l in (pp.controls, pp.programs, pp.key_signatures, pp.time_signatures, pp.meta_other):
+            for c in l:
+                c["time"] = f(c["time"])
+
+
+def eval_regen(d):
+    import os
+    import tempfile
+    import mido
+    from partitura.performance import Performance
+    from partitura.io import load_performance
+    from partitura.io.exportmidi import save_performance_midi
+    from partitura.io.importmidi import load_performance_midi
+
+    ev = Eval()
+    src = d["src"]
+    # ---- the first file (its own loading is the subject of the raw / perf cases)
+    if src["k"] == "raw":
+        mf0 = mido.MidiFile(type=1 if len(src["tracks"]) != 1 else 0, ticks_per_beat=src["ppq"])
+        for tr in src["tracks"]:
+            mf0.tracks.append(mido.MidiTrack([code_msg(tuple(m[1:]), m[0]) for m in tr]))
+        buf = io.BytesIO()
+        mf0.save(file=buf)
+    else:
+        pps, e = call(build_parts, src)
+        if e:
+            return ev
+        arg = pps[0] if src["kind"] == "PerformedPart" else list(pps)
+        if src["kind"] == "Performance":
+            arg, e = call(Performance, pps)
+            if e:
+                return ev
+        buf = io.BytesIO()
+        _, e = call(save_performance_midi, arg, buf, mpq=src["mpq"], ppq=src["ppq"], merge_tracks_save=src["msave"])
+        if e:
+            return ev
+    data = buf.getvalue()
+    keys = []
+    nnotes = 0
+    for ci, c in enumerate(d["cycles"]):
+        nxt = d["cycles"][ci + 1] if ci + 1 < len(d["cycles"]) else d["final"]
+        if c["via"] == "midi":
+            perf, e = call(load_performance_midi, mido.MidiFile(file=io.BytesIO(data)), default_bpm=c["bpm"], merge_tracks=c["merge"])
+        else:
+            fd, path = tempfile.mkstemp(suffix=".mid", prefix="c06_", dir="/dev/shm" if os.path.isdir("/dev/shm") else None)
+            try:
+                with os.fdopen(fd, "wb") as f:
+                    f.write(data)
+                perf, e = call(load_performance, path, default_bpm=c["bpm"], merge_tracks=c["merge"], first_note_at_zero=c["via"] == "fnz")
+            finally:
+                try:
+                    os.unlink(path)
+                except OSError:
+                    pass
+        if e:
+            ev.oracle.append("load: loading the file of generation %d raised %r" % (ci, e))
+            return ev
+        _, e = call(apply_edit, perf, c["edit"])
+        if e:
+            ev.oracle.append("edit: moving the times of a loaded performance (%r) raised %r" % (c["edit"], e))
+            return ev
+        pps = list(perf.performedparts)
+        if not pps:
+            break
+        if c["kind"] == "PerformedPart":
+            pps = pps[:1]
+            arg = pps[0]
+        elif c["kind"] == "list":
+            arg = list(pps)
+        else:
+            arg = perf
+        cfg = {"kind": c["kind"], "ppq": c["ppq"], "mpq": c["mpq"], "msave": c["msave"], "bpm": nxt["bpm"], "mload": nxt["merge"], "lp": False,
+               "from_loader": True}
+        idx = len(ev.requests)
+        r = export_and_reload(ev, cfg, pps, arg)
+        if r is None:
+            return ev
+        # the composed model: file -> loader (-> first_note_at_zero) -> exporter, from the messages of the file alone.
+        # The model integrates the tempo map exactly, the loader in binary64: the two agree on the tick of every
+        # event unless its image lies next to an x.5 boundary - such cases are left to the `exp` observation above
+        if c["edit"][0] == "none" and not near_boundary(r[2], c["ppq"], c["mpq"]):
+            mf1 = mido.MidiFile(file=io.BytesIO(data))
+            ev.requests.append("regen %d %d %s %s %s %d %d %s %s" % (
+                mf1.ticks_per_beat, default_mpq_of(c["bpm"]), W.b(c["merge"]), W.b(c["via"] == "fnz"), W.b(c["kind"] == "PerformedPart"),
+                c["ppq"], c["mpq"], W.b(c["msave"]), req_tracks(file_tracks(mf1))))
+            ev.impl.append(ev.impl[idx])
+            ev.info["regen_model"] = ev.info.get("regen_model", 0) + 1
+        data = r[0]
+        keys.append(r[1])
+        nnotes += sum(len(p["notes"]) for p in r[2])
+        ev.info["generations"] = ev.info.get("generations", 0) + 1
+    ev.key = ("regen|" + "|".join(keys)) if nnotes else None
+    return ev
+
+
 def eval_adj(d):
     from partitura.io.importmidi import adjust_time
 
@@ -1203,6 +1492,8 @@ def evaluate(d):
         return eval_perf(d)
     if d["k"] == "raw":
         return eval_raw(d)
+    if d["k"] == "regen":
+        return eval_regen(d)
     return eval_adj(d)
 
 
@@ -1255,6 +1546,25 @@ def shrink(d):
             c = copy.deepcopy(d)
             c["merge"] = False
             yield c
+    elif d["k"] == "regen":
+        if len(d["cycles"]) > 1:
+            c = copy.deepcopy(d)
+            c["cycles"] = c["cycles"][:-1]
+            yield c
+        for i, cy in enumerate(d["cycles"]):
+            for key, val in (("via", "midi"), ("edit", ["none"]), ("merge", False), ("msave", False), ("kind", "Performance")):
+                if cy[key] != val:
+                    c = copy.deepcopy(d)
+                    c["cycles"][i][key] = val
+                    yield c
+        if d["final"]["merge"]:
+            c = copy.deepcopy(d)
+            c["final"]["merge"] = False
+            yield c
+        for s2 in shrink(d["src"]):
+            c = copy.deepcopy(d)
+            c["src"] = s2
+            yield c
     else:
         for i in range(1, len(d["tc"])):
             c = copy.deepcopy(d)
@@ -1271,6 +1581,7 @@ def distribution(descs, results):
     from collections import Counter
 
     c = Counter(d["k"] for d in descs)
+    c["perf_with_tick_fields"] = sum(1 for d in descs if d["k"] == "perf" and any(p.get("attr") for p in d["parts"]))
     kinds = Counter(d.get("kind") for d in descs if d["k"] == "perf")
     cfg = Counter((d["ppq"], d["mpq"], d["msave"], d["mload"]) for d in descs if d["k"] == "perf")
     info = Counter()
